@@ -297,8 +297,14 @@ def runOpts (b : Block) : Res :=
       else if showBuilder "impl3" (buildFor (opts.take k ++ [xo]) []) = " ".intercalate impl3L then none
       else some s!"shared_defaults_model=[{noSpace (showBuilder "impl3" (buildFor (opts.take k ++ [xo]) []))}]_impl=[{noSpace (" ".intercalate impl3L)}]"
     | none => none
+  -- a nil option among the call options makes the call itself fail, whatever the target needs
+  let callres := ((field b "callres").getD []).headD "skip"
+  let nilInCall := (opts.drop k).any (fun o => o == Opt.nilOpt)
   -- property
   let p : Option String :=
+    if callres = "panic" then some "call_panicked" else
+    if nilInCall ∧ callres ≠ "nilarg" ∧ callres ≠ "skip" then some s!"nil_option_given_to_Call_of_a_function_without_parameters_ended_{callres}" else
+    if !hasNil ∧ callres = "nilarg" then some "call_reports_a_nil_option_that_was_not_given" else
     if c3.isSome ∧ !hasNil then some "defaults_of_one_function_changed_by_calling_another" else
     if hasNil then (if implL = ["impl", "nilarg"] then none else some s!"nil_option_not_reported_{noSpace implS}")
     else if implL.getD 1 "" ≠ "ok" then some s!"valid_options_rejected_{noSpace implS}"
@@ -322,6 +328,7 @@ def runResult (b : Block) : Res :=
     | ["K", t, i] => ({ ty := natOf t, id := some (natOf i) } : RVal)
     | ["E", i] => { ty := errorTy, id := if i = "0" then none else some (natOf i) }
     | ["C", i] => { ty := 20, id := if i = "0" then none else some (natOf i) }
+    | ["S", i] => { ty := 30, id := some (natOf i) }
     | _ => { ty := 0, id := none })
   let resolves := ((field b "resolve").getD []) == ["true"]
   let implL := (field b "impl").getD []
@@ -353,6 +360,8 @@ def runResult (b : Block) : Res :=
   -- C15: loading the result into the function's own output set (twice) leaves the result what it was
   let fr := ((field b "fr").getD []).headD "skip"
   let p15 := if fr = "skip" ∨ fr = "intact" then "ok" else s!"FAIL:FromResult_on_the_functions_own_output_set_{fr}"
+  -- … which is also C17's concern: afterwards the i-th output is no longer the function's i-th returned value
+  let p := p.or (if fr = "skip" ∨ fr = "intact" ∨ fr = "err" then none else some s!"result_changed_by_loading_it_into_the_functions_output_set_{fr}")
   { conform := c, prop := p, props := [("C15", p15)],
     stats := [s!"size={rets.length}", s!"class={if finalErr then "finalerr" else "noerr"}"] }
 
